@@ -2,6 +2,6 @@
 # usage: selftest/run_all_seeds.sh [tier]   - every seeded change under /verif/seeded against its property's check; prints one line per seed
 # and writes selftest/seed_results.txt. Each change is applied to /repo, checked, and reverted (see selftest/mutant.sh).
 TIER="${1:-quick}"; cd /verif; : > selftest/seed_results.txt
-for d in seeded/*/; do s=$(basename $d); id=${s%%-*}; if grep -q '"neutralised_by"' $d/meta.json; then echo "$s NEUTRALISED by a later fix (see meta.json)" | tee -a selftest/seed_results.txt; continue; fi; r=$(selftest/mutant.sh /verif/$d/patch.diff $id $TIER 2>&1 | tail -1); echo "$s $r" | tee -a selftest/seed_results.txt; done
+for d in seeded/*/; do s=$(basename $d); id=${s%%-*}; if grep -q '"neutralised_by"' $d/meta.json; then echo "$s NEUTRALISED by a later fix (see meta.json)" | tee -a selftest/seed_results.txt; continue; fi; cw=$(python3 -c "import json;print(json.load(open('$d/meta.json')).get('check_with','$id'))"); r=$(selftest/mutant.sh /verif/$d/patch.diff $cw $TIER 2>&1 | tail -1); echo "$s $r" | tee -a selftest/seed_results.txt; done
 # fix reverts: each repaired defect must be re-found when its fix is undone
 for f in selftest/fix-reverts/*.diff; do b=$(basename $f); id=${b%%-*}; r=$(selftest/mutant.sh /verif/$f $id $TIER 2>&1 | tail -1); echo "$b $r" | tee -a selftest/seed_results.txt; done
